@@ -110,8 +110,10 @@ class CommandShowTitles : public DFS::CommandInterface
     bool ok = true;
     for (DFS::SurfaceSelector surface : todo)
       {
+	error.clear();
 	if (!show_title(storage, surface, error))
 	  {
+	    DFS::failed_to_mount_surface(std::cerr, surface, error);
 	    ok = false;
 	  }
       }
